@@ -31,6 +31,8 @@ def main():
     fb = Facts(os.path.join(d, "breadlog-bin.json"))
     fl = Facts(os.path.join(d, "breadlog-lib.json"))
     g = Grammar.load(os.path.join(repo, "src", "parser", "rust_grammar.pest"))
+    from . import canon
+    renamed = canon.canonicalise(g, [fb, fl])
     ctx = Ctx(prop, tier, fb, fl, g, seed, extra={"repo": repo, "facts_dir": d})
     ctx.t0 = t0
     try:
